@@ -7,7 +7,7 @@
    Usage: import this file AFTER Reals/Coquelicot; ring_scope is NOT opened here.  In client files, R_scope stays the
    default scope of Coq's R operations; write (x * y)%Re for Rmult and (x * y)%Ri for the ring_scope product
    (the key %R is bound by whichever of Reals / ssralg was imported last, so it is best avoided). *)
-From Coq Require Import Reals ClassicalEpsilon FunctionalExtensionality.
+From Coq Require Import Reals Lra Psatz ClassicalEpsilon FunctionalExtensionality.
 From mathcomp Require Import all_ssreflect ssralg ssrnum.
 Set Implicit Arguments. Unset Strict Implicit. Unset Printing Implicit Defensive.
 
@@ -141,3 +141,19 @@ Proof.
   elim: k => [|k IH] //; rewrite -addn1 natrD IH plus_INR /=. by [].
 Qed.
 End Bridges.
+
+(* toR: turn a goal written with the MathComp operations at R into one written with Coq's (Rplus, Rmult, Ropp, 0, 1), so that
+   ring / field / lra / nra apply.  (The inverse x^-1 is `if x != 0 then / x else x`: rewrite RinvE first.) *)
+Ltac toR := rewrite /GRing.add /GRing.mul /GRing.opp /GRing.zero /GRing.one /GRing.natmul /=.
+
+(* regression: Coq's decision procedures on R are unaffected by the canonical structures, with or without ring_scope open *)
+Section Regression.
+Import GRing.Theory.
+Goal forall x y : R, x * y + 1 = 1 + y * x. Proof. move=> x y. ring. Qed.
+Goal forall x y : R, x <> 0 -> x * y / x = y. Proof. move=> x y H. field. exact H. Qed.
+Goal forall x y : R, x < y -> x <= y + 1. Proof. move=> x y H. lra. Qed.
+Local Open Scope ring_scope.
+Goal forall x y : R, x * y + 1 = 1 + y * x. Proof. move=> x y. toR. ring. Qed.
+Goal forall x y : R, x * x + y * y = 0 -> x = 0. Proof. move=> x y. toR. move=> H. nra. Qed.
+Goal forall x y : R, (x < y)%Re -> (x <= y + 1)%Re. Proof. move=> x y H. lra. Qed.
+End Regression.
